@@ -259,3 +259,9 @@ package js_parser
 // sloppy mode). An identifier that is the operand of delete must not be replaced by the constant it is bound to
 // (`delete 1` is true).
 //@ guarded inlined-constants-are-values-not-references C03: func=(*parser).handleIdentifier ; in=js_parser ; site=call ConstValueToExpr ; scenario=const_inlined_into_delete ; require=false:opts.isDeleteTarget
+
+// C16 (no panic) / C07: ParseSourceMap indexes "sources" and "sourcesContent" with ONE index per section, so a section
+// may contribute at most as many sourcesContent entries as it has sources (the next section pads the aggregated array
+// with make([]SourceContent, sourceOffset-len(sourcesContent)), whose length must not be negative). An entry is appended
+// only on a path where the entry's index has been found different from (below) the number of sources.
+//@ guarded sources-content-never-outgrows-sources C16 C07: func=ParseSourceMap ; in=js_parser ; site=builtin append ; when-arg=0:*sourcesContent* ; only-under=true:phi:rangeindex+1<call len(*sourcesContentArray*) ; scenario=index_map_surplus_sources_content ; require-any=false:phi:rangeindex+1==* || false:phi:rangeindex+1>=*
